@@ -42,6 +42,7 @@ fn main() {
                     "api" => run_api(&c, &sb, &mut o),
                     "originops" => run_originops(&c, &mut o),
                     "threads" => run_threads(&c, &sb, &mut o),
+                    "packrat" => run_packrat(&c, &mut o),
                     _ => panic!("unknown command"),
                 }
                 writeln!(o, "end").unwrap();
@@ -130,6 +131,40 @@ fn run_originops(c: &Case, o: &mut String) {
                 writeln!(o, "{}", s).unwrap();
             }
             _ => panic!("originops: unknown line {:?}", l),
+        }
+    }
+}
+
+// ---------------------------------------------------------------------------------------
+// packrat: drive nom_packrat::PackratStorage directly.
+//   cap <n|none> | ins <name 0..5> <pos> <flag> <len|none> | get <name> <pos> <flag> | clear
+static PACKRAT_NAMES: [&str; 6] = ["p0", "p1", "p2", "p3", "p4", "p5"];
+static PACKRAT_TEXT: [u8; 4096] = [0u8; 4096];
+fn run_packrat(c: &Case, o: &mut String) {
+    let mut st: nom_packrat::PackratStorage<u32, bool> = nom_packrat::PackratStorage::new(None);
+    for l in &c.lines {
+        match l[0].as_str() {
+            "cap" => {
+                st = nom_packrat::PackratStorage::new(if l[1] == "none" { None } else { Some(l[1].parse().unwrap()) });
+            }
+            "clear" => st.clear(),
+            "ins" | "get" => {
+                let name = PACKRAT_NAMES[l[1].parse::<usize>().unwrap()];
+                let pos: usize = l[2].parse().unwrap();
+                let ptr = unsafe { PACKRAT_TEXT.as_ptr().add(pos) };
+                let flag = l[3] == "1";
+                if l[0] == "ins" {
+                    let v = if l[4] == "none" { None } else { let n: usize = l[4].parse().unwrap(); Some((n as u32 * 7, n)) };
+                    st.insert((name, ptr, flag), v);
+                } else {
+                    match st.get(&(name, ptr, flag)) {
+                        None => writeln!(o, "get miss").unwrap(),
+                        Some(None) => writeln!(o, "get rejected").unwrap(),
+                        Some(Some((t, n))) => writeln!(o, "get {}:{}", t / 7, n).unwrap(),
+                    }
+                }
+            }
+            _ => panic!("packrat: unknown line {:?}", l),
         }
     }
 }
